@@ -82,7 +82,8 @@ check('C15', 'Hypothesis-generated X programs; hexsim -t output parsed under the
       'Symbol table read back from the binary (names, order), call events LDAP..BR of the ISA trace must land on the table offset of the callee the reference interpreter '
       'calls next, every trace line must show the count, address, mnemonic, nibble and symbol+offset of the byte the ISA reference executes at that step, and offset-0 '
       'lines must spell the call sequence.',
-      'When two operands whose order X leaves open both perform calls only the multiset of calls is compared. Free-form remainder of trace lines unchecked.',
+      'When two operands whose order X leaves open both perform calls only the multiset of calls is compared. Free-form remainder of trace lines unchecked. '
+      '15% of the cases are assembly tour programs with FUNC/PROC directives (the assembler\'s symbol path without xcmp); 8% have a procedure of several kilobytes.',
       'DESIGN.md 6 C15')
 
 check('C06', 'Hypothesis-generated binaries and inputs; differential between the two real executables (hextb, hexsim) plus agreement with the reference prediction',
